@@ -60,8 +60,16 @@ def changed(snap, f):
 
 
 def exotic_index(f, rng):
-    """present the caller's frame with a non-default index (a filtered slice / labelled index)"""
+    """present the caller's frame with a non-default index (a filtered slice / labelled index), its columns in any
+    left-to-right order and its rows in any order"""
     f = f.copy()
+    cols = list(f.columns)
+    rng.shuffle(cols)
+    f = f[cols]
+    if f.shape[0] > 1:
+        idx = list(range(f.shape[0]))
+        rng.shuffle(idx)
+        f = f.iloc[idx].reset_index(drop=True)
     if f.shape[0] > 0:
         labels = list(range(10, 10 + 3 * f.shape[0], 3))
         rng.shuffle(labels)
@@ -134,9 +142,26 @@ def judge(b, case, rng):
     spec2 = case.get("spec2")
     if spec2 is not None:
         try:
-            m2 = B.build_record_map({"blocks_in": spec, "blocks_out": spec2, "strict": True})   # blocks(spec) -> blocks(spec2)
+            spec_in = spec
+            if case.get("relabel"):
+                # the second map reads the same block columns but files the cells under permuted content names
+                import copy as _copy
+
+                spec_in = _copy.deepcopy(spec)
+                nk = len(spec["control_table_keys"])
+                names = RG.content_names(spec)
+                perm = names[1:] + names[:1]
+                it = iter(perm)
+                for r in spec_in["control_table"]["rows"]:
+                    for j in range(nk, len(r)):
+                        r[j] = next(it)
+                b.count("relabelled_compositions")
+            m2 = B.build_record_map({"blocks_in": spec_in, "blocks_out": spec2, "strict": True})   # blocks -> blocks(spec2)
             seq = m2.transform(m_out.transform(X))
-            want2 = RG.to_frame(RG.ref_unpivot(rows, spec2), RG.block_columns(spec2))
+            if spec_in is spec:
+                want2 = RG.to_frame(RG.ref_unpivot(rows, spec2), RG.block_columns(spec2))
+            else:
+                want2 = RG.to_frame(RG.ref_unpivot(RG.ref_pivot(want_blocks, spec_in), spec2), RG.block_columns(spec2))
             m = frames_match(want2, seq)
             if m:
                 return fail("block-to-block-differs-from-reference", m)
@@ -219,7 +244,7 @@ def gen_case(rng):
                 "control_table": {"cols": ["cn", "cv"], "rows": [[n, n] for n in names]}, "strict": True}
         rows = RG.gen_rowrecs(rng, spec)
         spec2 = None
-    return {"spec": spec, "rows": rows, "spec2": spec2, "helper": helper}
+    return {"spec": spec, "rows": rows, "spec2": spec2, "helper": helper, "relabel": rng.random() < 0.5}
 
 
 def run_batch(seed, batch, tier):
